@@ -20,6 +20,7 @@ from gvsim import worlds as W
 
 PROP = 'C17'
 TIERS = {'quick': {'runs': 1200, 'wall': 110, 'chunk': 10}, 'thorough': {'runs': 30000, 'wall': 1500, 'chunk': 20}}
+REACH = ['data_unknown_name', 'data_drop_required', 'data_bad_shape', 'data_nest_term', 'data_sibling_param', 'data_spaces_differ', 'text_truncate', 'text_flip_byte', 'equivalent_histories', 'static_checked', 'component:visibility:yaml_level', 'component:reward:module_factory']  # probes / faults that must fire in every batch (reach gaps are reported in the evidence)
 RULE = ('one run = 6 cases over the shipped configuration files (yaml/, registered_envs/, examples/coin_env.yaml, walked '
         'systematically); case kinds: equiv (real factory vs M-config: equal spaces and, with equal seeds and actions, '
         'digest-equal histories), repeat (build twice, input data unchanged), corrupt_data (delete key / unknown name / '
